@@ -391,7 +391,7 @@ def execute(plan, tape):
                     # the portfolio reported the failure: it stays usable for the next query
                     sat_mode = False
                     probe("continued_after_reported_failure")
-                    if tape.chance(1, 3, "ask.after.failure") and symbols:
+                    if tape.chance(1, 2, "ask.after.failure") and symbols:
                         # a (mistaken) value request right after the failure: any exception is fine,
                         # a call that never returns is not
                         try:
